@@ -631,6 +631,8 @@ def full_range(elem, frame_path: str | None, axis: int):
             return "ok"
         if axis == 1 and isinstance(X, AttrSym) and X.attr == "columns" and (frame_path is None or path_of(X.base) == frame_path):
             return "ok"
+        if axis == 1 and isinstance(X, CallSym) and X.meth == "row" and len(X.args) == 1 and (frame_path is None or path_of(X.recv) == frame_path):
+            return "ok"                       # for j, value in enumerate(frame.row(i)): every column of row i, in order
         return f"?index enumerates `{path_of(X)[:50]}`"
     if not isinstance(src, RangeSym):
         return f"?index runs over `{path_of(src)[:60]}`"
@@ -1158,8 +1160,26 @@ def _attr_source(v):
             return v.args[0], k
         if isinstance(k, Init):
             return v.args[0], ("param", k.path)
+        if isinstance(k, FmtSym) and all(isinstance(x, (str, Init)) for x in k.pieces):
+            return v.args[0], ("fmt", k.pieces)             # f"border_{side}": resolved when the closure's parameters are bound
         return v.args[0], None
     return None, None
+
+
+def _bind_name(name, binding: dict):
+    """an attribute name that depends on closure parameters, with the parameters bound to the call's arguments: a str if fully determined"""
+    if isinstance(name, tuple) and name[0] == "param":
+        arg = binding.get(name[1])
+        return arg if isinstance(arg, str) else (("param", arg.path) if isinstance(arg, Init) else None)
+    if isinstance(name, tuple) and name[0] == "fmt":
+        out = []
+        for x in name[1]:
+            v = x if isinstance(x, str) else binding.get(x.path)
+            if not isinstance(v, str):
+                return None
+            out.append(v)
+        return "".join(out)
+    return name
 
 
 def _mod_index(k, seq):
@@ -1308,14 +1328,12 @@ def lookups_of(v, site) -> tuple[list[Lookup], list[str]]:
             if ret is None or (isinstance(ret, Init) and ret.path in ps):
                 other.append("default" if ret is not None else "None")        # value absent -> None / the caller's default
                 continue
-            lk = lookup_of(ret, site)
+            lk = lookup_of(_unborder(ret), site)             # a helper may hand back the entry itself or the Border built from it
             if lk is None:
                 other.append(path_of(ret)[:80])
                 continue
-            name = lk.attr
-            if isinstance(name, tuple) and name[0] == "param":
-                name = binding.get(name[1])
-                name = name if isinstance(name, str) else None
+            name = _bind_name(lk.attr, binding)
+            name = name if isinstance(name, str) else None
             out.append(Lookup(lk.source, name, lk.owner, _bind_lin(lk.row, binding), _bind_lin(lk.col, binding), lk.via, lk.dim, lk.row_term, lk.col_term))
         return out, [o for o in other if o not in ("default", "None")]
     return [], [path_of(v)[:80]]
@@ -1342,6 +1360,11 @@ def _enclosing_loops(node, eff, fn) -> list[tuple]:
 
 def cell_of(v):
     """(frame, column, row) if the term is one cell of a data frame (c05._cell, plus row tuples of `for i, row in enumerate(frame.rows())`)"""
+    if isinstance(v, SubSym) and v.key == 1 and isinstance(v.base, ElemSym):
+        X = _enumerated(v.base)
+        X = unwrap(X) if X is not None else None
+        if isinstance(X, CallSym) and X.meth == "row" and len(X.args) == 1:
+            return X.recv, SubSym(f"{v.base.path}[0]", None, v.base, 0), X.args[0]          # for j, value in enumerate(frame.row(i))
     if isinstance(v, SubSym) and isinstance(v.base, SubSym) and v.base.key == 1 and isinstance(v.base.base, ElemSym):
         X = _enumerated(v.base.base)
         X = unwrap(X) if X is not None else None
@@ -1549,7 +1572,14 @@ def encode_index_agreement(ctx: Ctx, rule: str) -> None:
         base_frame = frame
         while isinstance(base_frame, CallSym) and base_frame.meth in ("fill_null", "clone", "rechunk") and isinstance(base_frame.recv, Sym):
             base_frame = base_frame.recv
-        if not (isinstance(base_frame, Init) and base_frame.path == p_df):
+        casts = [x for x in tparts(frame) if isinstance(x, CallSym) and x.meth == "cast" and x.args
+                 and path_of(x.args[0]).split(".")[-1] in ("String", "Utf8", "Categorical") or (isinstance(x, CallSym) and x.meth == "cast" and x.args and x.args[0] is str)]
+        if casts and p_df in roots(frame) and isinstance(frame, CallSym) and frame.meth in ("select", "with_columns", "cast"):
+            ok = False
+            ctx.violation(rule, fi.short, "cell source: text from " + path_of(casts[0])[:60], where,
+                          f"_encode: the text of cell (i, j) is read from `{path_of(frame)[:90]}`: the frame is converted with polars' `{path_of(casts[0])[:50]}`, whose text for booleans, floats, "
+                          "dates and nested values differs from Python's str(value) (`true` vs `True`, ...); expected str() of the frame's own value, '' for null")
+        elif not (isinstance(base_frame, Init) and base_frame.path == p_df):
             ok = False
             ctx.gap(rule, f"_encode: the frame `{path_of(frame)[:60]}` the cell value is read from is not the frame parameter `{p_df}`")
         elif path_of(row) != loop_index_path(i) or path_of(col) != loop_index_path(j):
